@@ -216,9 +216,11 @@ def initial_state_broken(P_prev, P_next):
     return bad(P_next) and not bad(P_prev)
 
 
-def mixed_type_object_equality(P):
-    """does some action condition of P compare two object-typed terms of *different* user types (type hierarchy)?"""
-    for a in P.actions:
+def mixed_type_object_equality(P, action_name=None):
+    """does some action condition of P compare two object-typed terms of *different* user types (type hierarchy)?
+    With `action_name`: only the conditions of that action (the one the original plan breaks at), when P has it."""
+    acts = [a for a in P.actions if action_name is None or a.name == action_name] or list(P.actions)
+    for a in acts:
         conds = list(getattr(a, "preconditions", []))
         for e in getattr(a, "effects", []):
             conds.append(e.condition)
@@ -400,7 +402,7 @@ def incomplete_mechanism(prep, fp, pi, skippable, stage, j):
             n = static_bool_precondition_params(P0, steps[j][0])
             if n:
                 return f"grounder:needed-grounding-dropped:positive-static-boolean-precondition-over-{'one-parameter' if n == 1 else 'several-parameters'}", culprit
-        if culprit == "ncrm" and not stage.startswith("goal") and mixed_type_object_equality(P_prev):
+        if culprit == "ncrm" and not stage.startswith("goal") and mixed_type_object_equality(P_prev, steps[j][0].name if j < len(steps) else None):
             return "ncrm:negated-object-equality-enumerates-only-the-objects-of-the-left-operand-type", culprit
         if culprit == "ncrm" and negation_pairs(P_prev, P_next) and "add-after-delete" in executed_features(P0, steps):
             return "ncrm:add-after-delete-makes-fluent-and-its-negation-fluent-both-true", culprit
